@@ -423,3 +423,6 @@ HARNESSES += [
 ]
 ASSUMPTIONS = ["in-memory brokers; virtual time; message 1 placed directly in the waiting queue with symbolic retry counters"]
 HARNESSES += HARNESSES_EXTRA
+
+from engine.harness import borrowed  # noqa: E402
+HARNESSES.append(borrowed("c16", "H16-redis-chain", "H02-redis-chain"))   # retries over Redis deliveries: requeue while budget remains, refusal/nack after
